@@ -3,6 +3,7 @@ package props
 import (
 	"errors"
 	"fmt"
+	"math"
 	"sort"
 	"strings"
 
@@ -30,7 +31,7 @@ func init() {
 			"bit operators and ~ are asserted on non-negative integers within 2^53 with Go int64 semantics; shift counts 0..62",
 			"every non-column item is aliased; -0 and +0 are equal",
 		},
-		Floor:         append([]string{"item.bare", "item.aliased", "lit.str", "lit.null", "nullresult", "source.inner-arrays.no-where"}, c02Forced...),
+		Floor:         append([]string{"item.bare", "item.aliased", "lit.str", "lit.null", "nullresult", "source.inner-arrays.no-where", "source.inner-arrays.named", "arith.through-infinity"}, c02Forced...),
 		MinNontrivial: 50,
 		Phases: []fw.Phase{
 			{Name: "proj", N: func(t fw.Tier) int { return pick(t, 16000, 500000) }, Run: c02Proj},
@@ -129,6 +130,13 @@ func c02Proj(c *fw.Case) {
 			computed = true
 		}
 	}
+	if force == "" && c.Chance(0.05) {
+		// IEEE doubles: an intermediate may overflow to infinity and the result be finite again
+		big := gen.Bin{Op: "*", L: gen.Bin{Op: "+", L: gen.Bin{Op: "*", L: gen.ColRef{Name: "n1"}, R: gen.ColRef{Name: "n1"}}, R: gen.NumLit{V: 1}}, R: gen.NumLit{V: 1e308}}
+		inf := gen.Bin{Op: "*", L: big, R: gen.NumLit{V: 10}}
+		items = append(items, gen.SelectItem{E: gen.Bin{Op: "/", L: gen.NumLit{V: float64(1 + c.Intn(9))}, R: inf}, Alias: "thru_inf"})
+		computed = true
+	}
 	var where gen.Pred
 	if force == "where" || c.Chance(0.4) {
 		where = pg.Gen()
@@ -177,7 +185,8 @@ func c02Proj(c *fw.Case) {
 		ro.ColText = map[string]string{"ar_tail": "`ar[(1:end)]`"}
 		feats = append(feats, "ref.range")
 	}
-	innerArrays := !envelope && !useRange && alias == "" && qualifier == "" && (force == "source.inner-arrays" || (force == "" && c.Chance(0.08)))
+	// (also with an alias the columns do not use, and with columns qualified by the table's name)
+	innerArrays := !envelope && !useRange && (alias == "" && qualifier == "" || alias == "x" && qualifier == "" || qualifier == "t1") && (force == "source.inner-arrays" || (force == "" && c.Chance(0.12)))
 	if innerArrays && force == "source.inner-arrays" && c.Idx%2 == 0 {
 		where = nil
 	}
@@ -275,6 +284,14 @@ func c02Proj(c *fw.Case) {
 				c.Discard("reference error: " + err.Error())
 				return
 			}
+			if f, ok := v.(float64); ok && (math.IsInf(f, 0) || math.IsNaN(f)) {
+				c.Discard("domain")
+				c.Count("discard.non-finite result", 1)
+				return
+			}
+			if it.Alias == "thru_inf" {
+				feats = append(feats, "arith.through-infinity")
+			}
 			key := it.Alias
 			if key == "" {
 				key = it.E.(gen.ColRef).Name
@@ -324,6 +341,9 @@ func c02Proj(c *fw.Case) {
 		doc = map[string]any{"grp": grp}
 		sql = strings.Replace(sql, " FROM t1", " FROM grp.t1", 1)
 		feats = append(feats, "source.inner-arrays")
+		if alias != "" || qualifier != "" {
+			feats = append(feats, "source.inner-arrays.named")
+		}
 		if where == nil {
 			feats = append(feats, "source.inner-arrays.no-where")
 		}
